@@ -48,6 +48,9 @@ pub enum Op {
 	Mine,
 	/// a fork of `len` empty blocks from `depth` blocks below the head (wins when len > depth)
 	Fork { depth: u8, len: u8 },
+	/// headers of `len` blocks on top of the head arrive without their bodies (header-first announcement,
+	/// header sync): the header chain runs ahead of the body chain the pool has to follow
+	HeaderAhead { len: u8 },
 }
 
 #[derive(Clone, Debug, Serialize, Deserialize)]
@@ -59,7 +62,7 @@ pub struct Case {
 fn submit() -> impl Strategy<Value = Submit> {
 	let picks = || prop::collection::vec(any::<u16>(), 1..=2);
 	prop_oneof![
-		10 => (picks(), 1u8..=3, 0u8..4, 0u8..4, 0u8..3).prop_map(|(ins, n_out, fee_class, shift, kern)| Submit::Fresh { ins, n_out, fee_class, shift, kern }),
+		10 => (picks(), 1u8..=3, 0u8..4, 0u8..4, prop_oneof![3 => Just(0u8), 2 => Just(1u8), 2 => Just(2u8), 2 => Just(3u8)]).prop_map(|(ins, n_out, fee_class, shift, kern)| Submit::Fresh { ins, n_out, fee_class, shift, kern }),
 		7 => (any::<u16>(), prop::option::weighted(0.3, any::<u16>()), prop::option::weighted(0.3, any::<u16>()), 0u8..4).prop_map(|(parent_pick, second_parent, utxo_in, fee_class)| Submit::Child { parent_pick, second_parent, utxo_in, fee_class }),
 		3 => (any::<u16>(), 0u8..4).prop_map(|(victim_pick, fee_class)| Submit::Conflict { victim_pick, fee_class }),
 		2 => any::<u16>().prop_map(|pick| Submit::Duplicate { pick }),
@@ -80,6 +83,7 @@ pub fn case_strategy(max_ops: usize) -> impl Strategy<Value = Case> {
 				3 => (prop::collection::vec(any::<u16>(), 0..3), prop::option::weighted(0.3, any::<u16>()), 1u16..300).prop_map(|(picks, conflict, dt)| Op::Block { picks, conflict, dt }),
 				2 => Just(Op::Mine),
 				1 => (1u8..=3, 1u8..=4).prop_map(|(depth, len)| Op::Fork { depth, len }),
+				1 => (1u8..=3).prop_map(|len| Op::HeaderAhead { len }),
 			],
 			4..=max_ops,
 		),
@@ -219,6 +223,14 @@ impl Env {
 				lock: h,
 				excess_tag: 0,
 			}],
+			// locked one block beyond the next one: not mineable on the head, so it must not be admitted
+			3 => vec![KernelSpec {
+				kind: KKind::HeightLocked,
+				fee,
+				shift,
+				lock: h + 1,
+				excess_tag: 0,
+			}],
 			_ => vec![KernelSpec {
 				kind: KKind::Plain,
 				fee,
@@ -352,6 +364,8 @@ pub fn run_case(ctx: &Ctx, case: &Case, counting: bool) -> PResult {
 			diff: 1,
 			neg: Neg::None,
 			neg_pick: 0,
+			hdr: 0,
+			inp: 0,
 		};
 		let built = env.w.build(env.cb.c(), &raw, env.head).map_err(|e| Fail::new("builder", e))?;
 		let m = built.verdict.clone().map_err(|e| Fail::new("harness:model", format!("{:?}", e)))?;
@@ -381,7 +395,7 @@ pub fn run_case(ctx: &Ctx, case: &Case, counting: bool) -> PResult {
 				let built: Option<(Transaction, Option<bool>, &str)> = match s {
 					Submit::Fresh { ins, n_out, fee_class, shift, kern } => env
 						.spec_from(take(&utxo, ins), *n_out as usize, *fee_class, *shift, *kern)
-						.map(|sp| (assemble(&sp).0, Some(false), "fresh")),
+						.map(|sp| if *kern == 3 { (assemble(&sp).0, Some(true), "locked-beyond-next-block") } else { (assemble(&sp).0, Some(false), "fresh") }),
 					Submit::Child { parent_pick, second_parent, utxo_in, fee_class } => {
 						let mut ins = take(&pool_outs, &[*parent_pick]);
 						if let Some(p2) = second_parent {
@@ -627,6 +641,29 @@ pub fn run_case(ctx: &Ctx, case: &Case, counting: bool) -> PResult {
 					ev.class_n("mined_txs", txs.len() as u64);
 				}
 			}
+			Op::HeaderAhead { len } => {
+				// built on the head like any block, but only the headers are delivered; the bodies never arrive
+				let mut parent_hdr = env.w.nodes[env.head].block.header.clone();
+				for k in 0..*len {
+					let cbkey = (parent_hdr.height as u32 + 1) * 4 + 3;
+					let (cbref, _, _) = LIB.coinbase(0, cbkey);
+					env.w.note(&cbref);
+					let b = match make_block(env.cb.c(), &parent_hdr, &[], cbkey, 45 + k as i64, PowMode::Real) {
+						Ok(b) => b,
+						// the builder can only root a block on a parent whose body the chain has
+						Err(_) => break,
+					};
+					env.cb
+						.c()
+						.process_block_header(&b.header, opts(PowMode::Real))
+						.map_err(|e| Fail::new("valid-header-rejected", format!("op {}: header {} above the head refused: {}", i, k + 1, err_name(&e))))?;
+					if counting {
+						ev.class("headers_delivered_ahead_of_bodies");
+					}
+					parent_hdr = b.header.clone();
+					break; // a second header would need the first block's body to be rooted
+				}
+			}
 			Op::Fork { depth, len } => {
 				// empty blocks from an ancestor; the last one may win and trigger reorg handling
 				let mut first = true;
@@ -639,6 +676,8 @@ pub fn run_case(ctx: &Ctx, case: &Case, counting: bool) -> PResult {
 						diff: 1,
 						neg: Neg::None,
 						neg_pick: 0,
+			hdr: 0,
+			inp: 0,
 					};
 					first = false;
 					let h = env.head;
@@ -659,6 +698,7 @@ pub fn run_case(ctx: &Ctx, case: &Case, counting: bool) -> PResult {
 			Op::Block { .. } => "block",
 			Op::Mine => "mine",
 			Op::Fork { .. } => "fork",
+			Op::HeaderAhead { .. } => "header-ahead",
 		}))?;
 	}
 	if counting {
